@@ -1273,7 +1273,17 @@ fn c14_oracles(_plan: &Plan) -> Vec<Box<dyn Oracle>> {
 }
 
 fn c14_gen_b(seed: u64, run: u64, thorough: bool) -> Plan {
-    b_transport("C14", "b_configured_ceiling", seed, run, thorough, false, false, false)
+    let mut plan = b_transport("C14", "b_configured_ceiling", seed, run, thorough, false, false, false);
+    // "effectively unlimited" ceilings on either side: 2^32 - 1, 2^32, a little more
+    let mut r = Rng::keyed(&[seed, run, 0xb14]);
+    for e in plan.endpoints.iter_mut() {
+        if let EndpointKind::Client { cfg, .. } | EndpointKind::Server { cfg, .. } = &mut e.kind {
+            if r.chance(0.3) {
+                cfg.max_send_rate = *r.pick(&[u32::MAX as u64, 1 << 32, (1 << 32) + 4096, 1 << 40]);
+            }
+        }
+    }
+    plan
 }
 
 pub fn c14() -> CheckDef {
